@@ -128,3 +128,85 @@ def replay(ctx, rep):
     print("impl :", ctx.run_lines(drv, [c])[0])
     print("model:", ctx.run_lines(model, [c])[0])
     print("guard:", ctx.run_lines(model, ["guards " + c])[0])
+
+
+# ---------------------------------------------------------------------------- classification
+# (oracle tag, op) -> guard names (coq/Num/NumModel.v) that explain a violation of that tag;
+# a violating case that falls in none of them is a new class ("unguarded")
+TAG_GUARDS = {
+    "comm": {"add": ["inf-nan"], "badd": ["inf-nan", "badd-zero-float"]},
+    "nan-absorbs": {o: ["inf-then-nan"] for o in ("add", "sub", "div", "pow", "badd")},
+    "inf-rules": {"mul": ["zoo-times-complex"], "bmul": ["zoo-times-complex"]},
+    "float-exact": {"mul": ["dbl-times-int0"], "bmul": ["dbl-times-int0"],
+                    "badd": ["badd-zero-float", "badd-zero-sum"]},
+    "value": {"div": ["rat-div-cplx"]},
+    "divzero": {"pow": ["zero-pow-neg"]},
+    "crash": {"pow": ["zero-pow-neg"]},
+    "order": {o: ["equal-diffkind", "inexact-conv", "dblinf-infty"] for o in ("lt", "le", "gt", "ge")},
+    "dual": {o: ["equal-diffkind", "inexact-conv", "dblinf-infty"] for o in ("lt", "le", "gt", "ge")},
+}
+# Le/Ge only fail on equal values; Lt/Gt never do
+for _o in ("lt", "gt"):
+    TAG_GUARDS["order"][_o] = ["inexact-conv", "dblinf-infty"]
+
+
+def classify(ctx, pid, model, results, tags_of_interest, crash_filter=None):
+    """turn oracle hits / crashes of `results` into ctx.violation calls with class keys"""
+    hits = []
+    for c, m, canon, tags in results:
+        op, a, b = c.split()
+        mine = [t for t in tags if t in tags_of_interest]
+        if "CRASH" in canon or "HANG" in canon or "UNCAUGHT" in canon:
+            if crash_filter is None or crash_filter(op, a, b):
+                mine.append("crash")
+        if mine:
+            hits.append((c, m, canon, mine))
+    if not hits:
+        return 0
+    gl = guards_of(ctx, model, [h[0] for h in hits])
+    n = 0
+    for (c, m, canon, mine), guards in zip(hits, gl):
+        op, a, b = c.split()
+        for t in mine:
+            allowed = TAG_GUARDS.get(t, {}).get(op, [])
+            g = next((x for x in allowed if x in guards), None)
+            if t == "crash" and g is None and m == "LIBM":
+                g = "libm"
+            if g is None:
+                cls = "unguarded:%s-%s" % (kind(a), kind(b))
+            else:
+                cls = g
+            key = "%s/%s:%s:%s" % (pid, t, op, cls)
+            if m not in ("LIBM",) and m != canon and t != "crash":
+                key += ":differs-from-model"
+            what = "case `%s` -> `%s` violates %s (model: %s; guards: %s)" % (c, canon, t, m, ",".join(guards) or "-")
+            ctx.violation(key, what, {"family": "NUM", "case": c, "impl": canon, "model": m, "oracle": t})
+            n += 1
+    return n
+
+
+def pow_ok(op, a, b):
+    """exclude powers whose result does not fit in memory (exact base beyond the units with a huge exponent)"""
+    if op in ("pow", "rpow"):
+        base, e = (a, b) if op == "pow" else (b, a)
+        if e.startswith("I:") and abs(int(e[2:])) > 4096 and is_exact(base) and base not in (
+                "I:0", "I:1", "I:-1", "C:0,1", "C:0,-1"):
+            return False
+    return True
+
+
+def add_cov(ctx, results, nontrivial, rule):
+    ctx.cov["evaluations"] += len(results)
+    ctx.cov["distinct_nontrivial"] += len(set(r[0] for r in results if nontrivial(r)))
+    ctx.cov["rule"] = rule
+    if len(ctx.cov["samples"]) < 8:
+        step = max(1, len(results) // 8)
+        ctx.cov["samples"] += [{"case": c, "model": m, "impl": i} for c, m, i, _ in results[::step][:8]]
+
+
+COMMON_ASSUMPTIONS = [
+    "GMP is the trusted external for integer/rational arithmetic: mpz/mpq operations on canonical operands return the canonical exact result (modelled by Z arithmetic and Qred), mpz_get_d/mpq_get_d truncate toward zero and overflow to infinity (checked against the library on every run)",
+    "the hardware/GCC double arithmetic is IEEE-754 binary64 round-to-nearest-even without contraction (modelled by Flocq's Bplus/Bminus/Bmult/Bdiv); every NaN is identified with the canonical NaN",
+    "std::pow (libm) and libgcc's complex division / NaN recovery of complex multiplication are not modelled: such cases are run on the library (oracles apply) but not compared with the model",
+    "RealDouble/ComplexDouble __eq__ is modelled as a value comparison of two distinct objects (the pointer-identity shortcut of eq() matters only for a NaN compared with itself)",
+]
